@@ -83,6 +83,38 @@ def gen_gaussian_case(r, cid):
     }
 
 
+def gen_mixture_case(r, cid):
+    """log-weights d(i[,a]) plus a Gaussian g(i[,a]; reals): a Gaussian mixture."""
+    ni = r.choice([2, 3])
+    batch = [["i", ni]] + ([["a", r.choice([1, 2])]] if r.random() < 0.4 else [])
+    r.shuffle(batch)
+    nreal = r.choice([1, 1, 2])
+    reals = [[n, r.choice([[], [], [2]])] for n in r.sample(["x", "y"], nreal)]
+    dim = sum(int(math.prod(s)) for _, s in reals)
+    nb_total = int(math.prod([s for _, s in batch]))
+    mats = [[round(r.gauss(0, 1), 3) for _ in range(dim * dim)] for _ in range(nb_total)]
+    locs = [[round(r.gauss(0, 1), 3) for _ in range(dim)] for _ in range(nb_total)]
+    wnames = [n for n, _ in batch if n == "i" or r.random() < 0.5]
+    wsizes = [dict(batch)[n] for n in wnames]
+    weights = [round(r.uniform(-2, 2), 3) for _ in range(int(math.prod(wsizes)))]
+    sampled = r.choice([["i"], ["i"], ["i"] + [n for n, _ in reals], ["i"] + [reals[0][0]], [n for n, _ in reals]])
+    nsi = r.choice([0, 0, 1])
+    return {
+        "kind": "mixture",
+        "sqrt": r.choice(["chol", "rotated"]),
+        "cid": cid,
+        "batch": batch,
+        "reals": reals,
+        "mats": mats,
+        "locs": locs,
+        "wnames": wnames,
+        "weights": weights,
+        "sampled": sampled,
+        "mode": "eager",
+        "sample_inputs": [["p%d" % i, r.choice([1, 2, 3])] for i in range(nsi)],
+    }
+
+
 def gen_delta_case(r, cid):
     return {
         "kind": "delta",
@@ -109,8 +141,10 @@ def plan(seed, tier):
         c = r.random()
         if c < 0.6:
             cases.append(gen_tensor_case(r, cid))
-        elif c < 0.85:
+        elif c < 0.8:
             cases.append(gen_gaussian_case(r, cid))
+        elif c < 0.87:
+            cases.append(gen_mixture_case(r, cid))
         else:
             cases.append(gen_delta_case(r, cid))
     jobs = []
@@ -547,6 +581,70 @@ def _check_gaussian(case, stats, stream_seed):
     return oracle.digest(Sr)
 
 
+def _check_mixture(case, stats, stream_seed):
+    """Sampling a Gaussian mixture (log-weights + Gaussian, both depending on the
+    discrete variable): inputs, and total mass against a dense numpy model."""
+    from collections import OrderedDict
+
+    import numpy as np
+
+    import funsor
+    from funsor import ops
+
+    from sim import oracle, seams
+
+    g, P, loc = _mk_gaussian(case)
+    sizes = dict(case["batch"])
+    wshape = tuple(sizes[n] for n in case["wnames"])
+    d = funsor.Tensor(np.array(case["weights"], dtype=np.float64).reshape(wshape), OrderedDict((n, funsor.Bint[sizes[n]]) for n in case["wnames"]))
+    m = d + g
+    sampled = frozenset(case["sampled"])
+    sample_inputs = OrderedDict((n, funsor.Bint[s]) for n, s in case["sample_inputs"])
+    stream = seams.RandomStream(stream_seed)
+    with seams.random_stream(stream):
+        S = m.sample(sampled, sample_inputs)
+    stats["rand_calls"] += len([c for c in stream.calls if c[0] == "rand"])
+    stats["randn_calls"] += len([c for c in stream.calls if c[0] == "randn"])
+    want = set(m.inputs) | set(sample_inputs)
+    if set(S.inputs) != want:
+        raise Violation("sample-inputs", "mixture sample has inputs %s, expected %s" % (sorted(S.inputs), sorted(want)))
+    if S.output != funsor.Real:
+        raise Violation("sample-output", "mixture sample has output %s" % (S.output,))
+    # dense model of the total mass: logsumexp_i ( d_i + Z_i ),  Z_i = dim/2 log 2pi - 1/2 logdet P_i
+    dim = P.shape[-1]
+    Z = 0.5 * dim * math.log(2 * math.pi) - 0.5 * np.linalg.slogdet(P)[1]  # batch shape, in case["batch"] order
+    bnames = [n for n, _ in case["batch"]]
+    idx = tuple(slice(None) if n in case["wnames"] else None for n in bnames)
+    perm = [case["wnames"].index(n) for n in bnames if n in case["wnames"]]
+    dd = np.array(case["weights"], dtype=np.float64).reshape(wshape).transpose(perm)[idx]
+    tot = dd + Z
+    ax = bnames.index("i")
+    mx = tot.max(ax, keepdims=True)
+    mass = (mx + np.log(np.exp(tot - mx).sum(ax, keepdims=True))).squeeze(ax)
+    rest = [n for n in bnames if n != "i"]
+    ref = funsor.Tensor(mass, OrderedDict((n, funsor.Bint[sizes[n]]) for n in rest))
+    allvars = frozenset(["i"] + [n for n, _ in case["reals"]])
+    lhs = funsor.reinterpret(S.reduce(ops.logaddexp, allvars))
+    try:
+        msg = oracle.compare(ref, lhs, rtol=1e-6, atol=1e-8)
+    except oracle.Declined:
+        stats["declined"] += 1
+        msg = None
+    if msg is not None:
+        raise Violation("sample-mass", "sampling %s of a Gaussian mixture changed its total mass (dense model vs sample reduced over all mixture variables): %s" % (sorted(sampled), msg))
+    stats["identities"] += 1
+    rhs = funsor.reinterpret(m.reduce(ops.logaddexp, allvars))
+    try:
+        msg = oracle.compare(ref, rhs, rtol=1e-6, atol=1e-8)
+    except oracle.Declined:
+        msg = None
+    if msg is not None:
+        raise Violation("mixture-mass-model", "the mixture's own total mass differs from the dense model: " + msg)
+    stats["identities"] += 1
+    stats["mixtures"] = stats.get("mixtures", 0) + 1
+    return oracle.digest(S)
+
+
 def _check_delta(case, stats):
     import numpy as np
 
@@ -748,6 +846,8 @@ def _run_case(args):
                 _check_montecarlo_integrate(case, t, S, si, stats)
         elif case["kind"] == "gaussian":
             digest = _check_gaussian(case, stats, case["cid"] * 7 + 2)
+        elif case["kind"] == "mixture":
+            digest = _check_mixture(case, stats, case["cid"] * 7 + 3)
         else:
             _check_delta(case, stats)
             digest = "delta"
@@ -804,6 +904,7 @@ def run_cases(payload):
             for k in ("identities", "points_checked", "declined", "rand_calls", "randn_calls"):
                 tot[k] += st[k]
             tot["montecarlo_integrals"] = tot.get("montecarlo_integrals", 0) + st.get("montecarlo_integrals", 0)
+            tot["mixtures"] = tot.get("mixtures", 0) + st.get("mixtures", 0)
             for k, v in st["edge_draws"].items():
                 edge[k] = edge.get(k, 0) + v
             for p in st["prefix"]:
@@ -941,6 +1042,7 @@ def summarize(jobs, results, tier):
         "exhaustive": False,
         "identities_checked": tot.get("identities", 0),
         "montecarlo_integrate_consistency_checks": tot.get("montecarlo_integrals", 0),
+        "gaussian_mixture_samples_checked": tot.get("mixtures", 0),
         "sample_points_checked_in_support": tot.get("points_checked", 0),
         "rand_calls_served": tot.get("rand_calls", 0),
         "randn_calls_served": tot.get("randn_calls", 0),
